@@ -96,6 +96,27 @@ def synth(sub, desc):
             sub.violation(f'internal:{type(e).__name__}:{name}:{site}:{key}',
                           f'{label}: synthesize_trials(..., {name}) raises {type(e).__name__}: {str(e)[:100]} at {site}',
                           {'desc': desc, 'query': 'raise', 'strategy': name, 'exception': type(e).__name__})
+            if name == 'RandomGen':
+                return 'ok'
+    # RandomGen's outcome depends on its random draws: drive the real sampler through EVERY draw sequence (choice oracle
+    # in place of random.randrange, as in C04-C07) when there are few enough; an internal error on any of them means
+    # some call of synthesize_trials(..., RandomGen) raises
+    if not built.block.show_errors():
+        from ..exhaust import enumerate_candidates, TooMany
+        try:
+            with quiet():
+                enumerate_candidates(built.block, 4000 if sub.tier == 'thorough' else 1200)
+        except TooMany:
+            pass
+        except HarnessError:
+            raise
+        except (IndexError, KeyError, ZeroDivisionError, AssertionError, TypeError, AttributeError) as e:
+            import traceback
+            tb = traceback.extract_tb(e.__traceback__)
+            site = next((f'{os.path.basename(fr.filename)}:{fr.name}' for fr in reversed(tb) if 'sweetpea' in fr.filename), '?')
+            sub.violation(f'internal:{type(e).__name__}:RandomGen-some-draw:{site}:{key}',
+                          f'{label}: for some sequence of random draws RandomGen raises {type(e).__name__}: {str(e)[:100]} at {site}',
+                          {'desc': desc, 'query': 'enumerate', 'exception': type(e).__name__})
     return 'ok'
 
 
@@ -105,6 +126,18 @@ def replay(data):
         return replay_harness(data)
     if data['query'] == 'child':
         return child_run(data['desc'], data['strategy']) is not None
+    if data['query'] == 'enumerate':
+        from ..exhaust import enumerate_candidates, TooMany
+        with quiet():
+            built = build(data['desc'])
+        try:
+            with quiet():
+                enumerate_candidates(built.block, 4000)
+        except TooMany:
+            return False
+        except Exception as e:
+            return type(e).__name__ == data['exception']
+        return False
     with quiet():
         built = build(data['desc'])
     try:
